@@ -58,6 +58,12 @@ FLOAT_VALUES = ["0.0", "0.0", "2.5", "1.0", "7.25"]
 BOOL_VALUES = ["false", "false", "true", "0", "1"]
 STRING_VALUES = ['""', "''", '""', '"x"', "'y z'", '"0"']
 ID_VALUES = ["foo", "bar", "x1", "true"]
+# reference values (`a=[Decl]`): names of the declared objects (handed to the metamodel as builtins, together
+# with every other identifier-like token a text may contain, so that every reference of every text resolves)
+REF_NAMES = ["d0", "d1", "d2", "d3", "d4", "d5", "d6", "d7"]
+DECL_NAMES = REF_NAMES + ID_VALUES + ["false"]
+DELAYS = [(0, 5), (1, 4), (2, 2), (3, 1)]
+PROVIDER_KEYS = ["*.*", "class.attr", "*.attr", "class.*"]
 
 
 # --------------------------------------------------------------------------
@@ -146,6 +152,8 @@ def render_rhs(a, names=None):
     t = a["rhs"]
     if t.startswith("LIT:"):
         return "'" + t[4:] + "'"
+    if t == "Ref":
+        return "[Decl]"
     return (names or {}).get(t, t)
 
 
@@ -234,6 +242,8 @@ def grammar_text(case):
         v = val_rule(case)
         body = "/[a-z][a-z0-9]*/" if v["kind"] == "re" else " | ".join(v["alts"])
         out.append(f"{names['Val']}: {body} ;")
+    if uses_refs(case):
+        out.append("Decl: 'decl' name=ID ;")
     return "\n".join(out) + "\n"
 
 
@@ -365,7 +375,8 @@ def truthy(cv):
 # generator
 # --------------------------------------------------------------------------
 class G:
-    def __init__(self, rng, attrs, numeric, allow_sub, allow_val=False):
+    def __init__(self, rng, attrs, numeric, allow_sub, allow_val=False, allow_ref=False):
+        self.allow_ref = allow_ref
         self.rng = rng
         self.attrs = attrs
         self.numeric = numeric
@@ -394,7 +405,12 @@ class G:
                 pool.append(("Sub", 3))
             if self.allow_val:
                 pool.append(("Val", 3))
+            if self.allow_ref:
+                pool.append(("Ref", 30))
             self.pref[attr] = rng.weighted(pool)
+        if self.pref[attr] == "Ref":
+            # an attribute holds references at all of its sites or at none (textX decides per attribute)
+            return "Ref"
         t = self.pref[attr] if rng.chance(0.8) else rng.choice(["NUM", "STRING", "BOOL", "ID", "LIT"])
         if t == "NUM":
             t = "FLOAT" if self.numeric == "FLOAT" else "INT"
@@ -545,7 +561,14 @@ def uses_sub(n):
     return uses_rhs(n, "Sub")
 
 
-def gen_case(rng):
+def uses_refs(case):
+    return any(uses_rhs(b, "Ref") for b in case["rules"].values())
+
+
+def gen_case(rng, refs=False):
+    """refs: the reference dimension — attributes whose values are references (`a=[Decl]`, `a+=[Decl]`, …); the
+    values then reach the object in the reference resolution, in the order the scope provider answers (texts
+    with a resolution history: every reference is answered Postponed 0..3 times first)."""
     numeric = "FLOAT" if rng.chance(0.12) else "INT"
     allow_sub = rng.chance(0.35)
     allow_val = rng.chance(0.3)
@@ -560,7 +583,7 @@ def gen_case(rng):
         params["Model"] = [list(x) for x in rng.weighted(RULE_PARAMS)]
         force = rng.weighted([(None, 40), ("rep", 22), ("un", 16), ("opt", 8), ("site", 6), ("seq", 4), ("alt", 4)])
     for _ in range(20):
-        g = G(rng, ATTRS[:nattrs], numeric, allow_sub, allow_val)
+        g = G(rng, ATTRS[:nattrs], numeric, allow_sub, allow_val, refs)
         body = g.body(max(depth, 1) if force else depth, force)
         if not has_asgn(body):
             body = {"k": "seq", "xs": [body, g.site()]}
@@ -577,7 +600,7 @@ def gen_case(rng):
         bare = rng.chance(0.4)
         sforce = rng.weighted([(None, 40), ("rep", 30), ("un", 20), ("alt", 10)]) if bare else None
         for _ in range(20):
-            gs = G(rng, SUB_ATTRS[: rng.randint(1, 2)], numeric, False, allow_val)
+            gs = G(rng, SUB_ATTRS[: rng.randint(1, 2)], numeric, False, allow_val, refs)
             gs.kw, gs.lit = 50, 50
             gs.kw_always = bare
             sb = gs.body(sdepth, sforce)
@@ -609,6 +632,8 @@ def gen_case(rng):
                                   {"kind": "alt", "alts": ["STRING", num]}, {"kind": "alt", "alts": [num, "STRING"]}])
     if names:
         case["names"] = names
+    if refs:
+        case["prov"] = {"key": rng.choice(PROVIDER_KEYS + [None]), "answer": rng.choice(["object", "none"])}
     case["texts"] = gen_texts(case, rng, 3)
     return case
 
@@ -641,6 +666,8 @@ def value_token(rhs, rng, numeric, case=None):
         return rng.choice(STRING_VALUES)
     if rhs == "ID":
         return rng.choice(ID_VALUES)
+    if rhs == "Ref":
+        return rng.choice(REF_NAMES)
     raise ValueError(rhs)
 
 
@@ -745,7 +772,12 @@ def gen_texts(case, rng, n):
                 if vs:
                     q = rng.choice(vs)
                     toks[q] = ["val", "0"] + toks[q][2:]
-        texts.append({"tokens": toks[:40], "origin": origin})
+        t = {"tokens": toks[:40], "origin": origin}
+        if uses_refs(case) and rng.chance(0.8):
+            # the resolution history: how often the scope provider answers Postponed for the reference that
+            # starts at this token (one entry per token; used only where a reference is matched there)
+            t["delays"] = [rng.weighted(DELAYS) if x[0] == "val" and x[1] in DECL_NAMES else 0 for x in t["tokens"]]
+        texts.append(t)
     return texts
 
 
@@ -897,6 +929,12 @@ class Prop(Check):
     def gen(self, rng, n, tier):
         for _ in range(n):
             yield gen_case(rng)
+        # the reference dimension (a stream of its own: the cases above stay what they were)
+        rr = rng.fork("refs")
+        for _ in range(n // 5):
+            yield gen_case(rr, refs=True)
+        fam = list(ref_family(rr))
+        yield from (fam if tier == "thorough" else rr.sample(fam, 30))
         if tier == "thorough":
             yield from small_family(rng)
             yield from rule_family(rng)
@@ -907,8 +945,8 @@ class Prop(Check):
                 yield from rng.sample([c for c in fam if part in (c.get("params") or {"Model": 0})], 12)
 
     def extra_search(self, rng, tier, broken):
-        out = list(small_family(rng)) + list(rule_family(rng))
-        out += [gen_case(rng) for _ in range(1500)]
+        out = list(small_family(rng)) + list(rule_family(rng)) + list(ref_family(rng))
+        out += [gen_case(rng, refs=i % 4 == 3) for i in range(1500)]
         return out
 
     # ---- implementation --------------------------------------------------
@@ -920,9 +958,12 @@ class Prop(Check):
 
         gtxt = grammar_text(case)
         obs = {"grammar_text": gtxt}
+        with_refs = uses_refs(case)
+        decls = {}  # the declared objects references resolve to: the metamodel's builtins (filled below)
         try:
             with watchdog(40):
                 mm = metamodel_from_str(gtxt, auto_init_attributes=bool(case.get("auto_init", True)),
+                                        **({"builtins": decls} if with_refs else {}),
                                         **({"memoization": True} if case.get("memo") else {}),
                                         **({"skipws": False} if case.get("mm_skipws") is False else {}))
         except Watchdog:
@@ -954,6 +995,34 @@ class Prop(Check):
             roots[rule] = [type(peg).__name__, len(getattr(peg, "nodes", []) or [])]
         obs["grammar"] = {"ok": mults}
         obs["roots"] = roots
+        refpos = []  # per text: the positions at which a reference is matched
+        delay, calls = {}, {}  # per text: reference position -> Postponed answers wanted / provider calls so far
+        if with_refs:
+            from textx.scoping import Postponed
+            decl_cls = mm["Decl"]
+            for dn in DECL_NAMES:
+                d = decl_cls()
+                d.name = dn
+                decls[dn] = d
+
+            def provider(obj, attr, obj_ref):
+                calls[obj_ref.position] = calls.get(obj_ref.position, 0) + 1
+                if calls[obj_ref.position] <= delay.get(obj_ref.position, 0):
+                    return Postponed()
+                return decls.get(obj_ref.obj_name) if prov.get("answer") == "object" else None
+
+            prov = case.get("prov") or {}
+            ref_attrs = [(names[r], a) for r in case["rules"] for a, m in mm[names[r]]._tx_attrs.items()
+                         if m.ref and not m.cont]
+            if prov.get("key") == "*.*":
+                mm.register_scope_providers({"*.*": provider})
+            elif prov.get("key") == "class.attr":
+                mm.register_scope_providers({f"{c}.{a}": provider for c, a in ref_attrs})
+            elif prov.get("key") == "*.attr":
+                mm.register_scope_providers({f"*.{a}": provider for c, a in ref_attrs})
+            elif prov.get("key") == "class.*":
+                mm.register_scope_providers({f"{c}.*": provider for c, a in ref_attrs})
+            # without a provider: the default scope provider finds nothing and the builtins answer
         obs["texts"] = []
         # name in the grammar text -> internal key, of the rules that make objects
         rule_names = {names[r]: r for r in case["rules"]}
@@ -1004,13 +1073,19 @@ class Prop(Check):
         def tree_obj(node, objs):
             rec = {"rule": rule_names[node.rule_name], "pos": node.position, "trace": []}
             objs.append(rec)
+            mattrs = mm[node.rule_name]._tx_attrs
             for c in node:
                 if isinstance(c, NonTerminal) and c.rule_name.startswith("__asgn"):
                     op = {"plain": "=", "optional": "?=", "zeroormore": "*=", "oneormore": "+="}[c.rule_name.split("_")[-1]]
                     attr = c.rule._attr_name
                     ev = {"a": attr, "op": op}
+                    isref = attr in mattrs and mattrs[attr].ref and not mattrs[attr].cont
+                    if isref:
+                        ev["ref"] = True
                     if op == "=":
                         ev["vs"] = [tree_value(c[0], objs)]
+                        if isref:
+                            refpos.append(c[0].position)
                     elif op == "?=":
                         ev["vs"] = [prim(True)]
                     else:
@@ -1021,6 +1096,8 @@ class Prop(Check):
                         ev["kids"] = [{"r": rid(x.rule), "kind": kid_kind(x), "v": tree_value(x, objs)} for x in c]
                         # the values, by the text: children that are value tokens or contained objects
                         ev["vs"] = [k["v"] for k in ev["kids"] if k["kind"] in ("val", "obj")]
+                        if isref:
+                            refpos.extend(x.position for x in c if kid_kind(x) == "val")
                     rec["trace"].append(ev)
                 elif isinstance(c, NonTerminal) and c.rule_name in rule_names:
                     # an object that is matched but assigned nowhere (not generated)
@@ -1032,6 +1109,8 @@ class Prop(Check):
             def val(v):
                 if isinstance(v, list):
                     return [val(x) for x in v]
+                if with_refs and type(v) is decl_cls:
+                    return prim(v.name)  # a reference is observed by the name of the object it points to
                 if is_obj(v):
                     go(v)
                     return {"obj": getattr(v, "_tx_position", None), "rule": rule_names.get(type(v).__name__, type(v).__name__)}
@@ -1057,6 +1136,9 @@ class Prop(Check):
             kinds.clear()
             kinds.update(token_kinds(t))
             rids.clear()
+            refpos.clear()
+            delay.clear()
+            calls.clear()
             # 1. what the parser matched
             try:
                 with watchdog(20):
@@ -1080,6 +1162,15 @@ class Prop(Check):
                 tree_obj(top, objs)
                 raw_tokens(top, assigned)
             tobs["parse"] = {"ok": {"objs": objs, "assigned": assigned}}
+            if with_refs:
+                # the resolution history of this text: the delays drawn for the tokens at which a reference is
+                # matched, made contiguous (0, 1, 2, … all occur) so that every resolution step resolves
+                # something and the resolution as a whole succeeds
+                raw = dict(zip(layout(t)[1], t.get("delays") or []))
+                levels = sorted({raw.get(q, 0) for q in refpos})
+                if prov.get("key") in PROVIDER_KEYS:
+                    delay.update({q: levels.index(raw.get(q, 0)) for q in refpos})
+                tobs["refs"] = [[q, delay.get(q, 0)] for q in sorted(refpos)]
             # 2. what the model holds
             try:
                 with watchdog(20):
@@ -1546,3 +1637,60 @@ def rule_family(rng):
                 c["texts"] = gen_texts(c, rng, 3)
                 c["origin"] = "family"
                 yield c
+
+
+def ref_family(rng):
+    """Reference lists x resolution histories, complete for three references of one list: every way one
+    object collects several references for one attribute (list assignment with / without separator, plain
+    assignment below a repetition, a sequence of plain assignments, plain + list assignment, unordered group,
+    contained objects with a reference list each) x every history in which each of the first three references
+    is answered Postponed 0, 1 or 2 times (27), x how the provider is registered and what it answers."""
+    def kw(s):
+        return {"k": "kw", "s": s}
+
+    def ref(op, **kv):
+        return dict({"k": "asgn", "a": "a", "op": op, "rhs": "Ref"}, **kv)
+
+    def v(i):
+        return ["val", REF_NAMES[i]]
+
+    shapes = [
+        (ref("+="), lambda n: [v(i) for i in range(n)]),
+        (ref("*=", sep={"s": ","}), lambda n: [x for i in range(n) for x in ([["sep", ","]] if i else []) + [v(i)]]),
+        ({"k": "rep", "plus": True, "x": {"k": "seq", "xs": [kw("@01"), ref("=")]}},
+         lambda n: [x for i in range(n) for x in (["kw", "@01"], v(i))]),
+        ({"k": "seq", "xs": [kw("@01"), ref("="), kw("@02"), ref("="), kw("@03"), ref("*=")]},
+         lambda n: [["kw", "@01"], v(0), ["kw", "@02"], v(1), ["kw", "@03"]] + [v(i) for i in range(2, n)]),
+        ({"k": "un", "form": "seq", "xs": [{"k": "seq", "xs": [kw("@01"), ref("=")]}, {"k": "seq", "xs": [kw("@02"), ref("+=")]}]},
+         lambda n: [["kw", "@02"]] + [v(i) for i in range(n - 1)] + [["kw", "@01"], v(n - 1)]),
+    ]
+    hist = [(d0, d1, d2) for d0 in range(3) for d1 in range(3) for d2 in range(3)]
+    for si, (body, toks) in enumerate(shapes):
+        for hi in range(0, len(hist), 3):
+            texts = []
+            for h in hist[hi:hi + 3]:
+                n = 3 + (sum(h) + si) % 2
+                tk = toks(n)
+                ds, j = [], 0
+                for x in tk:
+                    if x[0] == "val":
+                        ds.append(h[j] if j < 3 else 0)
+                        j += 1
+                    else:
+                        ds.append(0)
+                texts.append({"tokens": tk, "origin": "family", "delays": ds})
+            yield {"rules": {"Model": body}, "auto_init": rng.chance(0.5), "texts": texts, "origin": "family",
+                   "prov": {"key": rng.choice(PROVIDER_KEYS), "answer": rng.choice(["object", "none"])}}
+    # contained objects, each with a reference list of its own (the resolver keeps one bookkeeping per list)
+    sub = {"k": "seq", "xs": [ref("+=", a="x")]}
+    for hi in range(0, len(hist), 3):
+        texts = []
+        for h in hist[hi:hi + 3]:
+            tk, ds = [], []
+            for o in range(2):
+                tk += [["kw", "@sub"]] + [["val", REF_NAMES[(3 * o + i) % 8]] for i in range(3)]
+                ds += [0] + list(h if o == 0 else h[::-1])
+            texts.append({"tokens": tk, "origin": "family", "delays": ds})
+        yield {"rules": {"Model": {"k": "asgn", "a": "c", "op": "+=", "rhs": "Sub"}, "Sub": sub}, "auto_init": True,
+               "texts": texts, "origin": "family",
+               "prov": {"key": rng.choice(PROVIDER_KEYS), "answer": rng.choice(["object", "none"])}}
